@@ -31,6 +31,8 @@ type gstate struct {
 }
 
 type sched struct {
+	idleSteps int64
+	idleFires int
 	in        *interpreter
 	gs        []*gstate
 	cur       *gstate
@@ -125,6 +127,16 @@ func (s *sched) pickNext() *gstate {
 		// nobody runnable: fire the earliest timer, if any
 		if !s.fireNextTimer() {
 			return nil
+		}
+		// a periodic timer whose ticks nobody consumes would spin here for ever without
+		// executing a single instruction: every goroutine is blocked for good
+		if s.in.steps == s.idleSteps {
+			s.idleFires++
+			if s.idleFires > 100000 {
+				return nil
+			}
+		} else {
+			s.idleSteps, s.idleFires = s.in.steps, 0
 		}
 	}
 }
